@@ -851,6 +851,7 @@ func (ex *Exec) lookup(fr *frame, in *ssa.Lookup) Value {
 	x := fr.get(in.X)
 	switch m := x.(type) {
 	case *MapV:
+		ex.mapAccessCheck(m, false)
 		key := fr.get(in.Index)
 		var v Value
 		ok := false
@@ -879,6 +880,7 @@ func (ex *Exec) lookup(fr *frame, in *ssa.Lookup) Value {
 func (ex *Exec) rangeIter(x Value, t types.Type) *RangeIter {
 	switch v := x.(type) {
 	case *MapV:
+		ex.mapAccessCheck(v, false)
 		it := &RangeIter{m: v}
 		if v != nil {
 			for i, a := range v.alive {
